@@ -120,3 +120,121 @@ c('NaiveDate::checked_add_signed', U, requires="dwf(self), td_inv(rhs)", ensures
 c('NaiveDate::checked_sub_signed', U, requires="dwf(self), td_inv(rhs)", ensures=date_move("dn(self) - trunc_div(td_ns(rhs), 86_400_000_000_000)"))
 c('NaiveDate::signed_duration_since', U, requires="dwf(self), dwf(rhs)",
   ensures="td_inv(r), td_ns(r) == (dn(self) - dn(rhs)) * 86_400_000_000_000")
+
+# ------------------------------------------------------------------------------------------------
+# C07  NaiveTime (src/naive/time/mod.rs) -- proved by Verus (units/time.py)
+U = 'verus:time'
+def hms_ctor(nano_expr, extra=''):
+    return ("r.is_some() <==> (hms_ok(hour as int, min as int, sec as int, %s)%s), "
+            "r.is_some() ==> twf(r.unwrap()) && r.unwrap().secs as int == hour as int * 3600 + min as int * 60 + sec as int && r.unwrap().frac as int == %s") % (nano_expr, extra, nano_expr)
+c('NaiveTime::from_hms_opt', U, ensures=hms_ctor("0int"))
+c('NaiveTime::from_hms_milli_opt', U, ensures=hms_ctor("milli as int * 1_000_000"))
+c('NaiveTime::from_hms_micro_opt', U, ensures=hms_ctor("micro as int * 1_000"))
+c('NaiveTime::from_hms_nano_opt', U, ensures=hms_ctor("nano as int"))
+c('NaiveTime::from_num_seconds_from_midnight_opt', U,
+  ensures="r.is_some() <==> (secs < 86400 && (nano < 1_000_000_000 || (nano < 2_000_000_000 && secs % 60 == 59))), "
+          "r.is_some() ==> twf(r.unwrap()) && r.unwrap().secs == secs && r.unwrap().frac == nano")
+c('NaiveTime::hms', U, requires="twf(*self)", ensures="r.0 == self.secs / 3600, r.1 == (self.secs / 60) % 60, r.2 == self.secs % 60, r.0 < 24, r.1 < 60, r.2 < 60, r.0 * 3600 + r.1 * 60 + r.2 == self.secs")
+c('NaiveTime::num_seconds_from_midnight', U, ensures="r == self.secs")
+c('NaiveTime::nanosecond', U, ensures="r == self.frac")
+c('NaiveTime::Timelike__hour', U, requires="twf(*self)", ensures="r == self.secs / 3600, r < 24")
+c('NaiveTime::Timelike__minute', U, requires="twf(*self)", ensures="r == (self.secs / 60) % 60")
+c('NaiveTime::Timelike__second', U, requires="twf(*self)", ensures="r == self.secs % 60")
+c('NaiveTime::Timelike__nanosecond', U, ensures="r == self.frac")
+c('NaiveTime::Timelike__num_seconds_from_midnight', U, ensures="r == self.secs")
+c('NaiveTime::Timelike__hour12', U, requires="twf(*self)",
+  ensures="r.0 == (self.secs / 3600 >= 12), 1 <= r.1 <= 12, r.1 % 12 == (self.secs / 3600) % 12")
+c('NaiveTime::Timelike__num_seconds_from_midnight_default', U, requires="twf(*self)", ensures="r == self.secs")
+# single-field replacement: exactly the named field changes
+c('NaiveTime::Timelike__with_hour', U, requires="twf(*self)",
+  ensures="r.is_some() <==> hour < 24, r.is_some() ==> twf(r.unwrap()) && r.unwrap().frac == self.frac && r.unwrap().secs / 3600 == hour && r.unwrap().secs % 3600 == self.secs % 3600")
+c('NaiveTime::Timelike__with_minute', U, requires="twf(*self)",
+  ensures="r.is_some() <==> min < 60, r.is_some() ==> twf(r.unwrap()) && r.unwrap().frac == self.frac && r.unwrap().secs / 3600 == self.secs / 3600 && (r.unwrap().secs / 60) % 60 == min && r.unwrap().secs % 60 == self.secs % 60")
+c('NaiveTime::Timelike__with_second', U, requires="twf(*self)",
+  ensures="r.is_some() <==> sec < 60, r.is_some() ==> twf(r.unwrap()) && r.unwrap().frac == self.frac && r.unwrap().secs / 60 == self.secs / 60 && r.unwrap().secs % 60 == sec")
+c('NaiveTime::Timelike__with_nanosecond', U, requires="twf(*self)",
+  ensures="r.is_some() <==> nano < 2_000_000_000, r.is_some() ==> twf(r.unwrap()) && r.unwrap().frac == nano && r.unwrap().secs == self.secs")
+c('NaiveTime::overflowing_add_signed', U, requires="twf(*self), td_inv(rhs)", ensures="add_post(*self, td_ns(rhs), r.0, r.1 as int)")
+c('NaiveTime::overflowing_sub_signed', U, requires="twf(*self), td_inv(rhs)", ensures="add_post(*self, -td_ns(rhs), r.0, -(r.1 as int))")
+c('NaiveTime::signed_duration_since', U, requires="twf(self), twf(rhs)",
+  ensures="td_inv(r), td_ns(r) == jpos(self, rhs) - jpos(rhs, self), -86_401_000_000_000 < td_ns(r) < 86_401_000_000_000")
+c('NaiveTime::overflowing_add_offset', U, requires="twf(*self), offwf(offset)",
+  ensures="twf(r.0), r.0.frac == self.frac, -1 <= r.1 <= 1, r.0.secs as int + r.1 as int * 86400 == self.secs as int + offset.local_minus_utc as int")
+c('NaiveTime::overflowing_sub_offset', U, requires="twf(*self), offwf(offset)",
+  ensures="twf(r.0), r.0.frac == self.frac, -1 <= r.1 <= 1, r.0.secs as int + r.1 as int * 86400 == self.secs as int - offset.local_minus_utc as int")
+c('NaiveTime::Add__add', U, requires="twf(self), td_inv(rhs)", ensures="exists|c: int| #[trigger] add_post(self, td_ns(rhs), r, c)")
+c('NaiveTime::Sub__sub', U, requires="twf(self), td_inv(rhs)", ensures="exists|c: int| #[trigger] add_post(self, -td_ns(rhs), r, c)")
+c('NaiveTime::Sub_NaiveTime__sub', U, requires="twf(self), twf(rhs)", ensures="td_inv(r), td_ns(r) == jpos(self, rhs) - jpos(rhs, self)")
+c('FixedOffset::local_minus_utc', 'verus:time', ensures="r == self.local_minus_utc")
+c('FixedOffset::utc_minus_local', 'verus:time', requires="offwf(*self)", ensures="r == -self.local_minus_utc")
+
+# ------------------------------------------------------------------------------------------------
+# C01 kernel in day-number form (Kani proves the (year, ordinal) form; lemma succ_pred_dn_form in units/date.py links it)
+c('NaiveDate::succ_opt', 'kani:vk_date_succ_pred+verus:date', requires="dwf(*self)",
+  ensures="r.is_some() <==> dn(*self) < DN_MAX(), r.is_some() ==> dwf(r.unwrap()) && dn(r.unwrap()) == dn(*self) + 1")
+c('NaiveDate::pred_opt', 'kani:vk_date_succ_pred+verus:date', requires="dwf(*self)",
+  ensures="r.is_some() <==> dn(*self) > DN_MIN(), r.is_some() ==> dwf(r.unwrap()) && dn(r.unwrap()) == dn(*self) - 1")
+c('NaiveDate::BEFORE_MIN', 'kani:vk_date_consts+verus:date', ensures="dn(r) == DN_MIN() - 1, v_year(r) == MIN_Y() - 1")
+c('NaiveDate::AFTER_MAX', 'kani:vk_date_consts+verus:date', ensures="dn(r) == DN_MAX() + 1, v_year(r) == MAX_Y() + 1")
+c('NaiveDate::and_time', 'verus:datetime', ensures="r.date == *self, r.time == time")
+
+# ------------------------------------------------------------------------------------------------
+# C03/C04/C07  NaiveDateTime (src/naive/datetime/mod.rs) -- Verus (units/datetime.py)
+U = 'verus:datetime'
+c('NaiveDateTime::new', U, ensures="r.date == date, r.time == time")
+c('NaiveDateTime::date', U, ensures="r == self.date")
+c('NaiveDateTime::time', U, ensures="r == self.time")
+c('NaiveDateTime::and_utc', U, ensures="r.datetime == *self")
+c('NaiveDateTime::checked_add_signed', U, requires="dtwf(self), td_inv(rhs)", ensures="dt_add_post(self, td_ns(rhs), r)")
+c('NaiveDateTime::checked_sub_signed', U, requires="dtwf(self), td_inv(rhs)", ensures="dt_add_post(self, -td_ns(rhs), r)")
+c('NaiveDateTime::signed_duration_since', U, requires="dtwf(self), dtwf(rhs)",
+  ensures="td_inv(r), td_ns(r) == (dn(self.date) - dn(rhs.date)) * DAYNS() + jpos(self.time, rhs.time) - jpos(rhs.time, self.time)")
+c('NaiveDateTime::checked_add_days', U, requires="dtwf(self)",
+  ensures="r.is_some() <==> DN_MIN() <= dn(self.date) + days.0 as int <= DN_MAX(), r.is_some() ==> dtwf(r.unwrap()) && r.unwrap().time == self.time && dn(r.unwrap().date) == dn(self.date) + days.0 as int")
+c('NaiveDateTime::checked_sub_days', U, requires="dtwf(self)",
+  ensures="r.is_some() <==> DN_MIN() <= dn(self.date) - days.0 as int <= DN_MAX(), r.is_some() ==> dtwf(r.unwrap()) && r.unwrap().time == self.time && dn(r.unwrap().date) == dn(self.date) - days.0 as int")
+def off_shift(sign):
+    e = "(dn(self.date) * 86400 + self.time.secs as int %s rhs.local_minus_utc as int)" % sign
+    return ("r.is_some() <==> DN_MIN() * 86400 <= %s < (DN_MAX() + 1) * 86400, "
+            "r.is_some() ==> dtwf(r.unwrap()) && shifted(self, %srhs.local_minus_utc as int, r.unwrap())") % (e, '' if sign == '+' else '-')
+c('NaiveDateTime::checked_add_offset', U, requires="dtwf(self), offwf(rhs)", ensures=off_shift('+'))
+c('NaiveDateTime::checked_sub_offset', U, requires="dtwf(self), offwf(rhs)", ensures=off_shift('-'))
+# always exact: the sentinels BEFORE_MIN / AFTER_MAX are exactly one day outside the range (C04 headroom)
+c('NaiveDateTime::overflowing_add_offset', U, requires="dtwf(self), offwf(rhs)",
+  ensures="shifted(self, rhs.local_minus_utc as int, r), DN_MIN() - 1 <= dn(r.date) <= DN_MAX() + 1, (DN_MIN() <= dn(r.date) <= DN_MAX()) ==> dwf(r.date)")
+c('NaiveDateTime::overflowing_sub_offset', U, requires="dtwf(self), offwf(rhs)",
+  ensures="shifted(self, -rhs.local_minus_utc as int, r), DN_MIN() - 1 <= dn(r.date) <= DN_MAX() + 1, (DN_MIN() <= dn(r.date) <= DN_MAX()) ==> dwf(r.date)")
+c('NaiveDateTime::Add__add', U, requires="dtwf(self), td_inv(rhs), (add_model(self.time, td_ns(rhs)).0 || DN_MIN() * DAYNS() <= dn(self.date) * DAYNS() + add_model(self.time, td_ns(rhs)).1 < (DN_MAX() + 1) * DAYNS())",
+  ensures="dt_add_post(self, td_ns(rhs), Some(r))")
+c('NaiveDateTime::Sub__sub', U, requires="dtwf(self), td_inv(rhs), (add_model(self.time, -td_ns(rhs)).0 || DN_MIN() * DAYNS() <= dn(self.date) * DAYNS() + add_model(self.time, -td_ns(rhs)).1 < (DN_MAX() + 1) * DAYNS())",
+  ensures="dt_add_post(self, -td_ns(rhs), Some(r))")
+c('NaiveDateTime::Sub_NaiveDateTime__sub', U, requires="dtwf(self), dtwf(rhs)",
+  ensures="td_inv(r), td_ns(r) == (dn(self.date) - dn(rhs.date)) * DAYNS() + jpos(self.time, rhs.time) - jpos(rhs.time, self.time)")
+
+# ------------------------------------------------------------------------------------------------
+# C02  DateTime<Utc> timestamps (src/datetime/mod.rs) -- Verus (units/datetime.py)
+TS = "unix_secs(self.datetime)"
+c('DateTime::from_naive_utc_and_offset', U, ensures="r.datetime == datetime, r.offset == offset")
+c('DateTime::naive_utc', U, ensures="r == self.datetime")
+c('DateTime::timestamp', U, requires="dtwf(self.datetime)", ensures="r as int == " + TS)
+c('DateTime::timestamp_subsec_nanos', U, ensures="r == self.datetime.time.frac")
+c('DateTime::timestamp_subsec_millis', U, ensures="r as int == self.datetime.time.frac as int / 1_000_000")
+c('DateTime::timestamp_subsec_micros', U, ensures="r as int == self.datetime.time.frac as int / 1_000")
+c('DateTime::timestamp_millis', U, requires="dtwf(self.datetime)", ensures="r as int == %s * 1000 + self.datetime.time.frac as int / 1_000_000" % TS)
+c('DateTime::timestamp_micros', U, requires="dtwf(self.datetime)", ensures="r as int == %s * 1_000_000 + self.datetime.time.frac as int / 1_000" % TS)
+c('DateTime::timestamp_nanos_opt', U, requires="dtwf(self.datetime)",
+  ensures="({ let v = %s * 1_000_000_000 + self.datetime.time.frac as int; (r.is_some() <==> i64::MIN <= v <= i64::MAX) && (r.is_some() ==> r.unwrap() as int == v) })" % TS)
+TS_OK = "(DN_MIN() <= secs as int / 86400 + UNIX_DAY() <= DN_MAX() && (nsecs < 1_000_000_000 || (nsecs < 2_000_000_000 && (secs as int % 86400) % 60 == 59)))"
+c('DateTime::from_timestamp', U,
+  ensures="r.is_some() <==> " + TS_OK + ", r.is_some() ==> dtwf(r.unwrap().datetime) && dn(r.unwrap().datetime.date) == secs as int / 86400 + UNIX_DAY() "
+          "&& r.unwrap().datetime.time.secs as int == secs as int % 86400 && r.unwrap().datetime.time.frac == nsecs && unix_secs(r.unwrap().datetime) == secs as int")
+c('DateTime::from_timestamp_millis', U,
+  ensures="r.is_some() <==> (DN_MIN() <= (millis as int / 1000) / 86400 + UNIX_DAY() <= DN_MAX()), "
+          "r.is_some() ==> dtwf(r.unwrap().datetime) && unix_secs(r.unwrap().datetime) * 1000 + r.unwrap().datetime.time.frac as int / 1_000_000 == millis as int "
+          "&& r.unwrap().datetime.time.frac as int % 1_000_000 == 0 && r.unwrap().datetime.time.frac < 1_000_000_000")
+c('DateTime::from_timestamp_micros', U,
+  ensures="r.is_some() <==> (DN_MIN() <= (micros as int / 1_000_000) / 86400 + UNIX_DAY() <= DN_MAX()), "
+          "r.is_some() ==> dtwf(r.unwrap().datetime) && unix_secs(r.unwrap().datetime) * 1_000_000 + r.unwrap().datetime.time.frac as int / 1_000 == micros as int "
+          "&& r.unwrap().datetime.time.frac as int % 1_000 == 0 && r.unwrap().datetime.time.frac < 1_000_000_000")
+c('DateTime::from_timestamp_nanos', U,
+  ensures="dtwf(r.datetime) && unix_secs(r.datetime) * 1_000_000_000 + r.datetime.time.frac as int == nanos as int && r.datetime.time.frac < 1_000_000_000")
